@@ -27,8 +27,12 @@ def main():
     results = []
     for m in spec:
         if only and m['name'] not in only: continue
-        edits = m.get('edits') or [{'file': m['file'], 'old': m['old'], 'new': m['new']}]
+        edits = m.get('edits') or ([] if m.get('patch') else [{'file': m['file'], 'old': m['old'], 'new': m['new']}])
         try:
+            if m.get('patch'):
+                r = sh(f"git -C /repo apply {os.path.join('/verif', m['patch'])}")
+                if r.returncode != 0:
+                    raise RuntimeError(f"{m['name']}: patch does not apply: {r.stderr}")
             for e in edits:
                 path = os.path.join('/repo', e['file'])
                 s = open(path).read()
